@@ -4,13 +4,14 @@ package main
 
 import (
 	"time"
+	"verif/lib/wraps"
 
 	"fmt"
 	"verif/lib/ev"
 
+	"gopkg.in/typ.v4/sync2"
 	"verif/lib/enum"
 	"verif/lib/maph"
-	"gopkg.in/typ.v4/sync2"
 	"verif/lib/seqmc"
 	"verif/lib/spell"
 )
@@ -24,6 +25,11 @@ func main() {
 	res := seqmc.Explore(r, seqmc.Config{Name: "map-sequential", New: func() seqmc.Sys {
 		return maph.New(keys)
 	}})
+	if cases, msg := wraps.Map(); msg != "" {
+		r.Report(ev.Violation{Sig: "family|wrap", Msg: msg, Replay: map[string]any{"family": "wrap"}})
+	} else {
+		r.Set("wrap_family_cases", cases)
+	}
 	if !res.Exhaustive {
 		r.MarkCapped()
 	}
